@@ -44,5 +44,6 @@ def gen_changelog(rng, max_blocks=3):
         lines += bl
         comps.append(comp)
         if i < n - 1 or rng.random() < 0.5:
-            lines += [""] * rng.choice([1, 1, 2])
+            # separator lines between / after blocks: empty, or blank but not empty (they are text like any other)
+            lines += [rng.choice(["", "", "", " ", "\t", "  "]) for _ in range(rng.choice([1, 1, 2]))]
     return "\n".join(lines) + "\n", comps
